@@ -137,6 +137,9 @@ def init : State :=
     runs := 0, started := false, stopFirst := false, runOutcome := none, posted := false, lastPosted := none,
     adopted := [], published := [], shut := false }
 
+/-- the same with the settings the task class gave itself in `__init__` (`self.settings = …`; `none` if it did not) -/
+def initS (v0 : Option Nat) : State := { init with settings := v0 }
+
 inductive Act
   -- task thread
   | initOk | initFail | wake | runEnter | updCheck | updPop | updPub | setStatus (v : Nat)
@@ -344,8 +347,8 @@ def exec (s : State) : List Act → Option State
                | some s' => exec s' as
                | none    => none
 
-/-- states reachable from `init` by some finite interleaving -/
-def Reachable (s : State) : Prop := ∃ tr, exec init tr = some s
+/-- states reachable from an initial state (any initial settings) by some finite interleaving -/
+def Reachable (s : State) : Prop := ∃ v0 tr, exec (initS v0) tr = some s
 
 /-- is some action of the task thread enabled that does not depend on the task body?
 (used by the driver to judge a reported deadlock) -/
